@@ -103,6 +103,11 @@ func init() {
 			s.Transform, s.Entropy = "BWT", "ANS0"
 			add(s)
 		}
+		for _, st := range stallScenarios(c) {
+			if st.Kind == "enc" {
+				add(st)
+			}
+		}
 		results := e1RunAll(c, specs, 16)
 		e1Summary(c, results)
 		// self check: sleep-set mode and plain DFS must see the same set of outcomes
